@@ -1061,11 +1061,12 @@ fn scen_pending(ctx: &Ctx, out: &mut Outcome, r: &mut Rng, run_seed: u64) {
         p.hist.push(format!("t={:.3} update: pending present={}", p.srv.now.as_secs_f64(), present));
         if present {
             seen = true;
-            if fl == expire {
-                out.count("pending_present_during_expire_second");
+            if fl + 1 == expire {
+                out.count("pending_present_in_last_valid_second");
             }
         }
-        if fl > expire {
+        // the token is expired from second `expire` on (a request presented then is refused as expired)
+        if fl >= expire {
             if seen {
                 checked = true;
                 if present {
@@ -1075,7 +1076,7 @@ fn scen_pending(ctx: &Ctx, out: &mut Outcome, r: &mut Rng, run_seed: u64) {
                     out.count("pending_vanished_after_expiry");
                 }
             }
-            if fl > expire + 1 {
+            if fl > expire {
                 break;
             }
         }
